@@ -1035,6 +1035,9 @@ func setupRegister(env *object.Environment, name string, value int64, body ast.N
 	if log.LogVerbose() {
 		out := strings.Builder{}
 		ps := &ast.PrintState{Out: &out, Compact: true}
+		if !ok {
+			newBody = body // the rewrite stopped part way (nil nodes in it, printing it panics).
+		}
 		newBody.PrettyPrint(ps)
 		log.LogVf("replaced %d registers - ok = %t: %s", register.Count, ok, out.String())
 	}
